@@ -22,7 +22,7 @@ def bounds(ts, ps, ctrl, nbanks, nports):
     wl = math.ceil(ps.cwl / ps.nphases)
     tccd = ts.tCCD or 1
     turn = max(ps.read_latency - 1, (ts.tWTR or 0) + wl + tccd)
-    B_req_cas = max(ctrl.read_time, ctrl.write_time) + turn + nbanks * tccd + 2
+    B_req_cas = max(ctrl.read_time, ctrl.write_time) + turn + (nbanks + 2) * tccd + 2
     B_req_row = (ts.tRRD or 0) + (ts.tFAW or 0) + nbanks + 4
     twtp = wl + ts.tWR + tccd
     refresh = ts.tRP + ts.tRFC + 6
